@@ -47,6 +47,7 @@ func isInitiator(c *hx.NegCase) bool { return c.Bits&hx.NegReceived == 0 }
 // features' outcomes are produced on demand (and recorded into c); otherwise
 // they are taken from c.
 func execute(c *hx.NegCase, gen *adaptive) hx.Observed {
+	c.TeeFirst = teeFirst
 	log := &hx.NegLog{}
 	initiator := isInitiator(c)
 	s2s := c.Bits&hx.NegS2S != 0
@@ -139,6 +140,26 @@ func execute(c *hx.NegCase, gen *adaptive) hx.Observed {
 	return obs
 }
 
+// teeFirst says which negotiator.go is under test: whether `first` survives the
+// tee-wrapping call (coq: c_teefirst). It is observed once, on a probe (tee on,
+// STARTTLS configured, empty first list: the forced attempt is made or not), and
+// passed to the model as part of every case's configuration.
+var teeFirst bool
+
+func probeTeeFirst() bool {
+	c := hx.NegCase{Domain: "example.net", Tee: 3,
+		Feats: []hx.FeatSpec{{Space: hx.NSStartTLS, Local: "starttls", Proh: hx.NegSecure, Neg: true, LReq: true}},
+		In:    []hx.Item{{Kind: "header"}, {Kind: "features"}, {Kind: "header"}, {Kind: "features"}},
+		Outs:  []hx.Outcome{{Mask: hx.NegSecure, Restart: true}}}
+	o := execute(&c, nil)
+	for _, e := range o.Trace {
+		if e.K == "neg" {
+			return true
+		}
+	}
+	return false
+}
+
 // ---------------------------------------------------------------- implementation oracle
 
 func eligible(f hx.FeatSpec, st uint8) bool { return st&f.Nec == f.Nec && st&f.Proh == 0 }
@@ -199,7 +220,7 @@ func oracle(c *hx.NegCase, o *hx.Observed) [][2]string {
 	negd := map[string]bool{}   // name spaces negotiated on the current stream
 	adv := map[[2]string]bool{} // names advertised by the last list of the current stream
 	cache := map[string]centry{}
-	var advReq []hx.FeatSpec // configured features the last list read marked required, eligible then or not
+	var advAll []centry // configured features the last list read named (with the required flag), eligible then or not
 	nlists := 0
 	needHeader := false
 	selfReady := false         // some feature's own mask contained Ready
@@ -230,7 +251,7 @@ func oracle(c *hx.NegCase, o *hx.Observed) [][2]string {
 			negd = map[string]bool{}
 			adv = map[[2]string]bool{}
 			cache = map[string]centry{}
-			advReq = nil
+			advAll = nil
 		case "in":
 			if needHeader && initiator {
 				fail("restart-header", "after a restart input was consumed before a stream header was sent")
@@ -239,7 +260,7 @@ func oracle(c *hx.NegCase, o *hx.Observed) [][2]string {
 				nlists++
 				adv = map[[2]string]bool{}
 				cache = map[string]centry{}
-				advReq = nil
+				advAll = nil
 				for _, ch := range e.Item.Children {
 					if ch.Text {
 						break
@@ -249,9 +270,7 @@ func oracle(c *hx.NegCase, o *hx.Observed) [][2]string {
 						if ch.PErr {
 							break
 						}
-						if ch.Req {
-							advReq = append(advReq, *g)
-						}
+						advAll = append(advAll, centry{ch.Req, *g})
 						if eligible(*g, cur) {
 							cache[g.Space] = centry{ch.Req, *g}
 						}
@@ -338,6 +357,16 @@ func oracle(c *hx.NegCase, o *hx.Observed) [][2]string {
 						fail("voluntary-first", "required feature "+f.Space+" taken while voluntary "+v.f.Space+" was still open")
 					}
 				}
+				// the literal reading: also a voluntary feature that was advertised while its
+				// prerequisites did not hold (so it is not in the cache) and is eligible now
+				for _, a := range advAll {
+					if cv, cached := cache[a.f.Space]; a.req || (cached && !cv.req && cv.f.Local == a.f.Local) {
+						continue
+					}
+					if a.f.Neg && !negd[a.f.Space] && eligible(a.f, st) {
+						fail("not-eligible-when-advertised/voluntary-first", "required feature "+f.Space+" taken while voluntary "+a.f.Space+", advertised before its prerequisites held and eligible now, was still open")
+					}
+				}
 			}
 			negd[f.Space] = true
 			cur = st
@@ -368,13 +397,13 @@ func oracle(c *hx.NegCase, o *hx.Observed) [][2]string {
 		}
 		// the literal reading: a feature the last list marked required that was not eligible
 		// then (so it is not in the cache) but is eligible now
-		for _, g := range advReq {
-			ce, cached := cache[g.Space]
-			if cached && ce.req && ce.f.Local == g.Local {
-				continue // covered by pendingRequired below
+		for _, a := range advAll {
+			g := a.f
+			if ce, cached := cache[g.Space]; !a.req || (cached && ce.req && ce.f.Local == g.Local) {
+				continue // voluntary, or covered by pendingRequired below
 			}
 			if g.Neg && !negd[g.Space] && eligible(g, cur) {
-				fail("established/required-became-eligible", "session established while a feature the last advertisement marked required, whose prerequisites did not hold when it was advertised but hold now, was not negotiated: "+g.Space)
+				fail("not-eligible-when-advertised/established", "session established while a feature the last advertisement marked required, whose prerequisites did not hold when it was advertised but hold now, was not negotiated: "+g.Space)
 			}
 		}
 		if pendingRequired() && !selfReady {
@@ -521,15 +550,48 @@ func (g *adaptive) features() hx.Item {
 	return it
 }
 
+// open lists the configured features a well-behaved initiating peer could
+// select now: negotiable, eligible in the state the log determines, not yet
+// negotiated since the last restart.
+func (g *adaptive) open() []hx.FeatSpec {
+	cur := g.c.Bits
+	negd := map[string]bool{}
+	if g.log != nil {
+		for _, e := range g.log.Ev {
+			if e.K != "neg" {
+				continue
+			}
+			negd[e.Space] = true
+			if !e.O.Err {
+				cur |= e.O.Mask
+				if e.O.Restart {
+					negd = map[string]bool{}
+				}
+			}
+		}
+	}
+	var out []hx.FeatSpec
+	for _, f := range g.c.Feats {
+		if f.Neg && !negd[f.Space] && eligible(f, cur) {
+			out = append(out, f)
+		}
+	}
+	return out
+}
+
 func (g *adaptive) selection() hx.Item {
 	r := g.r
 	it := hx.Item{Kind: "elem"}
 	if r.Chance(1, 4) {
 		it.Kind = "iq"
 	}
+	open := g.open()
 	switch {
 	case r.Chance(1, 10):
 		it.Space, it.Local = "urn:x:unknown", "u"
+	case len(open) > 0 && r.Chance(3, 5):
+		f := open[r.Intn(len(open))]
+		it.Space, it.Local = f.Space, f.Local
 	default:
 		f := g.c.Feats[r.Intn(len(g.c.Feats))]
 		it.Space, it.Local = f.Space, f.Local
@@ -628,6 +690,10 @@ func (g *adaptive) nextOutcome(f hx.FeatSpec, st uint8) hx.Outcome {
 
 func genCase(r *hx.Rand) (*hx.NegCase, *adaptive) {
 	c := &hx.NegCase{Feats: genFeats(r), Bits: genBits(r), Domain: "example.net"}
+	if r.Chance(1, 2) { // start in a state in which some configured feature can run
+		f := c.Feats[r.Intn(len(c.Feats))]
+		c.Bits = (c.Bits | f.Nec&^R) &^ (f.Proh &^ hx.NegReceived)
+	}
 	if r.Chance(1, 4) {
 		c.Tee = 1 + r.Intn(3)
 	}
@@ -657,6 +723,16 @@ func (x *runner) record(c *hx.NegCase, o *hx.Observed, note string) {
 	}
 	b, _ := json.Marshal(c)
 	classes := []string{"role:" + role, "result:" + o.Class, fmt.Sprintf("negotiations:%d", min(nneg, 4)), fmt.Sprintf("items:%d", min(len(c.In), 8))}
+	if nneg == 0 { // why nothing was negotiated
+		why := "none"
+		if n := len(o.Trace); n > 0 {
+			why = o.Trace[n-1].K
+			if o.Trace[n-1].Item != nil {
+				why += ":" + o.Trace[n-1].Item.Kind
+			}
+		}
+		classes = append(classes, "no-negotiation-after:"+why+"/"+o.Class)
+	}
 	if c.Tee != 0 {
 		classes = append(classes, "tee")
 	}
@@ -691,6 +767,8 @@ func main() {
 	x := &runner{res: res}
 	x.cf = hx.CaseFile{Name: "neg", Imports: imports, Ok: "case_ok", Type: "ncase"}
 	r := hx.NewRand(o.Seed)
+	teeFirst = probeTeeFirst()
+	res.Extra["negotiator_first_survives_tee"] = teeFirst
 
 	if o.Replay != "" {
 		b, err := os.ReadFile(o.Replay)
@@ -866,6 +944,12 @@ func corpus() []recCase {
 	out = append(out, recCase{Note: "advertised as required while not eligible, eligible after a voluntary feature", NegCase: hx.NegCase{
 		Feats: []hx.FeatSpec{a, bn}, In: []hx.Item{hdr, fl(ch(a, false), ch(bn, true))},
 		Outs: []hx.Outcome{{Mask: A}}}})
+	vn := b
+	vn.Nec = A
+	cr := hx.FeatSpec{Space: "urn:x:c", Local: "c", Neg: true}
+	out = append(out, recCase{Note: "voluntary feature advertised while not eligible, eligible when the required one is taken", NegCase: hx.NegCase{
+		Feats: []hx.FeatSpec{a, vn, cr}, In: []hx.Item{hdr, fl(ch(a, false), ch(vn, false), ch(cr, true)), fl()},
+		Outs: []hx.Outcome{{Mask: A}, {Mask: 0}}}})
 	// Ready together with a restart (known finding)
 	out = append(out, recCase{Note: "Ready in the mask of a restarting feature", NegCase: hx.NegCase{
 		Feats: []hx.FeatSpec{a}, In: []hx.Item{hdr, fl(ch(a, false))},
